@@ -35,7 +35,7 @@ def check(case):
     ok, b = unowned(r, pl.build, samples, opts)
     if not ok:
         return r
-    tree = pl.is_tree(b.reg)
+    tree = pl.is_tree(b.reg, roots_referenced=True)
     dag = (not tree) and len(b.roots) == 1 and pl.is_acyclic(b.reg)
     nested = bool(opts["nested"] and (tree or dag))
     if nested and dag:
